@@ -25,10 +25,12 @@ Contents
      (`guardAt`), with `tailcall_guard_missing` (F5);
   4. `call_guard_nongeneric_sound`: the non-generic branch of the call guard is sound given C09's
      `compat_sound` (stated as a hypothesis until C09 exports it);
-  5. `guard_unify_sound_partial` (positive theorem, every fuel, every table, every rule set): on
-     the fragment "parameter built from 'int / 'bin / type variables / tuples, argument closed and
-     built from 'int / 'bin / tuples" — which includes widening of a variable bound twice to the
-     union of the argument types — unification followed by substitution is sound.
+  5. `guard_unify_sound_partial` (positive theorem, every fuel, every table): on the fragment
+     "parameter built from 'int / 'bin / type variables / tuples, argument closed and built from
+     'int / 'bin / tuples / unions" — which includes widening of a variable bound twice and the
+     "non-union parameter, union argument" arm — unification followed by substitution is sound
+     UNDER THE EVERY-VARIANT RULE (fix 8f4b36d); `partial_needs_every_variant_rule` shows that the
+     hypothesis cannot be dropped (the F6 instance lies in the fragment).
 -/
 namespace C01
 open QM.Types QM.Soundness
@@ -320,40 +322,41 @@ example : callGuard Rules.current 16 tF6 3 0 3 = .accept tF6 0 := by decide
 
 Fragment (decidable predicates `QM.Soundness.patT` / `argT`, depth-indexed): the parameter type is
 built from `'int`, `'bin`, type variables and tuples (any names / labels / nesting); the argument
-type is closed and built from `'int`, `'bin` and tuples — the type of a literal argument such as
-`[1, [0x00, 2]]` or `P[x: 1, y: 0x]`. On this fragment `unify` exercises the variable arm (fresh
-binding, and **widening** of an existing binding through `union_type_ids`), the base arms and the
-tuple/tuple arm, and none of the arms the `Rules` switches govern; `substitute` rebuilds and
-registers the instantiated tuple types. What is missing for the full statement
-(`GuardUnifySound`): union / cycle / partial / callable / process types on either side — for
-unions and cycles the statement is false (sections 1b, 2); partial, callable and process arms
-are not covered by a proof yet. -/
+type is closed and built from `'int`, `'bin`, tuples and unions — the type of a literal argument
+such as `[1, [0x00, 2]]`, or of a maker function's result such as `[1, 2] | 'bin`. On this
+fragment `unify` exercises the variable arm (fresh binding, and **widening** of an existing binding
+through `union_type_ids`), the base arms, the tuple/tuple arm and the "non-union parameter, union
+argument" arm (the arm fix 8f4b36d changed); `substitute` rebuilds and registers the instantiated
+tuple types. What is missing for the full statement (`GuardUnifySound`): union / cycle / partial /
+callable / process types in the PARAMETER and cycle / partial / callable / process types in the
+argument — for cycles the statement is false (section 1b); a union parameter meets the union/union
+arm, sound since e4496af on the instances tried but not covered by a proof yet. -/
 
 /-- **Soundness of the generic-call guard on the fragment**: if unification of the parameter type
 `p` with the argument type `a` (from empty bindings) succeeds with bindings `σ`, and `σ` is
 substituted into `p`, every value of the argument type inhabits the instantiated parameter type —
-for every table, every fuel and every rule set. -/
-theorem guard_unify_sound_partial (rules : Rules) (cf f f' : Nat) (T T' T'' : Table)
-    (p a r n m : Nat) (σ : Bindings)
+for every table and every fuel, under the every-variant rule. -/
+theorem guard_unify_sound_partial (rules : Rules) (hr : rules.unionArg = .everyVariant)
+    (cf f f' : Nat) (T T' T'' : Table) (p a r n m : Nat) (σ : Bindings)
     (hp : patT T n p = true) (ha : argT T m a = true)
     (hu : unifyWith rules cf f T [] p a = some (T', some σ))
     (hs : substitute σ f' T' p = some (T'', r)) :
     ∀ v, inh T [] a v → inh T'' [] r v := by
   have hb0 : BOk T [] := fun x t h => by simp [Bindings.get, List.lookup] at h
-  obtain ⟨hE, hbσ, _, hsound⟩ := unify_sound_aux rules cf f T [] p a T' σ n m hu hp ha hb0
+  obtain ⟨hE, hbσ, _, hsound⟩ := unify_sound_aux rules hr cf f T [] p a T' σ n m hu hp ha hb0
   obtain ⟨_, _, hsub⟩ :=
     substitute_sound σ f' T' p T'' r n hs (patT_transfer hE n p n hp (Nat.le_refl _)) hbσ
   exact fun v hv => hsub v (hsound v hv)
 
 /-- the bindings produced on the fragment only mention first-order types, and the tables only grow. -/
-theorem guard_unify_partial_tables (rules : Rules) (cf f f' : Nat) (T T' T'' : Table)
-    (p a r n m : Nat) (σ : Bindings)
+theorem guard_unify_partial_tables (rules : Rules) (hr : rules.unionArg = .everyVariant)
+    (cf f f' : Nat) (T T' T'' : Table) (p a r n m : Nat) (σ : Bindings)
     (hp : patT T n p = true) (ha : argT T m a = true)
     (hu : unifyWith rules cf f T [] p a = some (T', some σ))
     (hs : substitute σ f' T' p = some (T'', r)) :
     Ext T T' ∧ Ext T' T'' ∧ BOk T' σ := by
   have hb0 : BOk T [] := fun x t h => by simp [Bindings.get, List.lookup] at h
-  obtain ⟨hE, hbσ, _, _⟩ := unify_sound_aux rules cf f T [] p a T' σ n m hu hp ha hb0
+  obtain ⟨hE, hbσ, _, _⟩ := unify_sound_aux rules hr cf f T [] p a T' σ n m hu hp ha hb0
   obtain ⟨hE', _, _⟩ :=
     substitute_sound σ f' T' p T'' r n hs (patT_transfer hE n p n hp (Nat.le_refl _)) hbσ
   exact ⟨hE, hE', hbσ⟩
@@ -374,5 +377,41 @@ example : unifyWith Rules.current 8 8 tWiden [] 3 4 =
 /-- the instance, run: `[1, 0x00]` inhabits the instantiated parameter (new type 6). -/
 example : guardInstance Rules.current 8 tWiden 3 4
     (.tup none (.cons none (.int 1) (.cons none (.bin [0]) .nil))) = some (6, true, true) := by decide
+
+/-- The code as it is satisfies the rule hypothesis… -/
+theorem current_rules_every_variant : Rules.current.unionArg = .everyVariant := rfl
+
+/-- …so the guard of the current code is sound on the fragment. -/
+theorem guard_unify_sound_partial_current (cf f f' : Nat) (T T' T'' : Table) (p a r n m : Nat)
+    (σ : Bindings) (hp : patT T n p = true) (ha : argT T m a = true)
+    (hu : unify cf f T [] p a = some (T', some σ)) (hs : substitute σ f' T' p = some (T'', r)) :
+    ∀ v, inh T [] a v → inh T'' [] r v :=
+  guard_unify_sound_partial Rules.current rfl cf f f' T T' T'' p a r n m σ hp ha hu hs
+
+/-- The rule hypothesis cannot be dropped: the F6 instance lies inside the fragment, and under the
+rule before 8f4b36d the conclusion fails on it. -/
+theorem partial_needs_every_variant_rule :
+    patT tF6 2 2 = true ∧ argT tF6 3 5 = true ∧
+    unifyWith Rules.beforeF6 16 16 tF6 [] 2 5 = some (tF6, some [(7, 0)]) ∧
+    substitute [(7, 0)] 16 tF6 2 = some (tF6, 3) ∧
+    inh tF6 [] 5 vF6 ∧ ¬ inh tF6 [] 3 vF6 := by
+  refine ⟨by decide, by decide, by decide, by decide, ⟨8, by decide⟩, ?_⟩
+  rintro ⟨fuel, hf⟩
+  rw [F6_value_outside] at hf
+  exact Bool.false_ne_true hf
+
+/-- a union argument handled by the every-variant arm: parameter `['int, 't]`, argument
+`['int, 'int] | ['int, 'bin]`; the guard answers `'t := 'int | 'bin`.
+tuples: 2 `['int, 't]`, 3 `['int, 'int]`, 4 `['int, 'bin]`;
+types: 0 'int, 1 't, 2 `['int, 't]`, 3 `['int, 'int]`, 4 'bin, 5 `['int, 'bin]`, 6 the union. -/
+def tUnionArg : Table :=
+  { types := [.integer, .variable 7, .tuple 2, .tuple 3, .binary, .tuple 4, .union [3, 5]],
+    tuples := [⟨none, []⟩, ⟨some 1, []⟩, ⟨none, [(none, 0), (none, 1)]⟩, ⟨none, [(none, 0), (none, 0)]⟩,
+               ⟨none, [(none, 0), (none, 4)]⟩] }
+
+example : patT tUnionArg 2 2 = true ∧ argT tUnionArg 3 6 = true := by decide
+
+example : guardInstance Rules.current 12 tUnionArg 2 6
+    (.tup none (.cons none (.int 1) (.cons none (.bin [0]) .nil))) = some (8, true, true) := by decide
 
 end C01
